@@ -18,8 +18,8 @@ Definition easter_range (r : raw) (n : nat) : Prop :=
   (r_freq r = DAILY /\ 1583 <= r_y r <= 4098 /\
    (n <> 0%nat -> sp_ord0 r + Z.of_nat n * r_interval r <= e_last)).
 
-(* without BYEASTER: coarse_guard_all (YEARLY / MONTHLY / DAILY: every rule, every fuel; WEEKLY: weeks within
-   9999-12-31, first week not before 0001-01-01 when BYSETPOS is used); with BYEASTER: easter_range *)
+(* without BYEASTER: coarse_guard_all (YEARLY / MONTHLY / WEEKLY / DAILY: every rule, every fuel); with BYEASTER:
+   easter_range (its WEEKLY conjunct `1 <= ws0 r` is implied by 1584 <= r_y r; kept for the existing proofs) *)
 Definition full_guard (r : raw) (n : nat) : Prop :=
   coarse_guard_all r n \/
   (spec_wf r = true /\ all_opt (r_byweekno r) weekno_safe = true /\ easter_range r n).
